@@ -5,6 +5,7 @@
 package pump
 
 import (
+	"crypto/elliptic"
 	crand "crypto/rand"
 	"fmt"
 	"io"
@@ -64,6 +65,10 @@ type Config struct {
 	Msg          *big.Int
 	FullBytesLen int      // 0 = absent
 	KDD          *big.Int // ECDSA signing key derivation delta (nil = none)
+
+	// Curve, when set, replaces the protocol's standard curve (toy-parameter runs: a tiny prime-order curve
+	// given as *elliptic.CurveParams; the library takes its group from tss.Parameters.EC())
+	Curve elliptic.Curve
 
 	NoProofs bool  // resharing / keygen: SetNoProofMod + SetNoProofFac
 	Seed     int64 // seeds protocol randomness; 0 = crypto/rand
@@ -129,6 +134,20 @@ type Session struct {
 	KeepFeedingAborted bool
 	// FromOverride may replace the sender identity an item is handed over with (C06: sender index out of range etc.)
 	FromOverride func(it *Item) (index int, ok bool)
+}
+
+// curves of a session (Config.Curve overrides both)
+func (c Config) edCurve() elliptic.Curve {
+	if c.Curve != nil {
+		return c.Curve
+	}
+	return tss.Edwards()
+}
+func (c Config) ecCurve() elliptic.Curve {
+	if c.Curve != nil {
+		return c.Curve
+	}
+	return tss.S256()
 }
 
 var roundRe = regexp.MustCompile(`round: (\d+)`)
@@ -243,13 +262,13 @@ func New(cfg Config, sink ev.Sink) (*Session, error) {
 		for i, pid := range pids {
 			n := mkNode(i+1, "single", pid)
 			if cfg.Proto == EdKeygen {
-				params := tss.NewParameters(tss.Edwards(), ctx, pid, cfg.N, cfg.T)
+				params := tss.NewParameters(cfg.edCurve(), ctx, pid, cfg.N, cfg.T)
 				setRand(params, n.G)
 				n.Params = params
 				n.endKD = make(chan *edkg.LocalPartySaveData, 8)
 				n.Party = edkg.NewLocalParty(params, n.out, n.endKD)
 			} else {
-				params := tss.NewParameters(tss.S256(), ctx, pid, cfg.N, cfg.T)
+				params := tss.NewParameters(cfg.ecCurve(), ctx, pid, cfg.N, cfg.T)
 				setRand(params, n.G)
 				n.Params = params
 				n.endKE = make(chan *eckg.LocalPartySaveData, 8)
@@ -271,7 +290,7 @@ func New(cfg Config, sink ev.Sink) (*Session, error) {
 		s.NOld = len(pids)
 		for i, pid := range pids {
 			n := mkNode(i+1, "single", pid)
-			params := tss.NewParameters(tss.Edwards(), ctx, pid, len(pids), cfg.T)
+			params := tss.NewParameters(cfg.edCurve(), ctx, pid, len(pids), cfg.T)
 			setRand(params, n.G)
 			n.Params = params
 			n.endS = make(chan *common.SignatureData, 8)
@@ -293,7 +312,7 @@ func New(cfg Config, sink ev.Sink) (*Session, error) {
 		s.NOld = len(pids)
 		for i, pid := range pids {
 			n := mkNode(i+1, "single", pid)
-			params := tss.NewParameters(tss.S256(), ctx, pid, len(pids), cfg.T)
+			params := tss.NewParameters(cfg.ecCurve(), ctx, pid, len(pids), cfg.T)
 			setRand(params, n.G)
 			n.Params = params
 			n.endS = make(chan *common.SignatureData, 8)
@@ -329,13 +348,13 @@ func New(cfg Config, sink ev.Sink) (*Session, error) {
 		for i, pid := range oldPIDs {
 			n := mkNode(i+1, "old", pid)
 			if cfg.Proto == EdReshare {
-				params := tss.NewReSharingParameters(tss.Edwards(), oldCtx, newCtx, pid, len(oldPIDs), cfg.T, cfg.NewN, cfg.NewT)
+				params := tss.NewReSharingParameters(cfg.edCurve(), oldCtx, newCtx, pid, len(oldPIDs), cfg.T, cfg.NewN, cfg.NewT)
 				setRand(params.Parameters, n.G)
 				n.Params = params.Parameters
 				n.endKD = make(chan *edkg.LocalPartySaveData, 8)
 				n.Party = edrs.NewLocalParty(params, edKeys[i], n.out, n.endKD)
 			} else {
-				params := tss.NewReSharingParameters(tss.S256(), oldCtx, newCtx, pid, len(oldPIDs), cfg.T, cfg.NewN, cfg.NewT)
+				params := tss.NewReSharingParameters(cfg.ecCurve(), oldCtx, newCtx, pid, len(oldPIDs), cfg.T, cfg.NewN, cfg.NewT)
 				setRand(params.Parameters, n.G)
 				n.Params = params.Parameters
 				n.endKE = make(chan *eckg.LocalPartySaveData, 8)
@@ -345,13 +364,13 @@ func New(cfg Config, sink ev.Sink) (*Session, error) {
 		for i, pid := range newPIDs {
 			n := mkNode(len(oldPIDs)+i+1, "new", pid)
 			if cfg.Proto == EdReshare {
-				params := tss.NewReSharingParameters(tss.Edwards(), oldCtx, newCtx, pid, len(oldPIDs), cfg.T, cfg.NewN, cfg.NewT)
+				params := tss.NewReSharingParameters(cfg.edCurve(), oldCtx, newCtx, pid, len(oldPIDs), cfg.T, cfg.NewN, cfg.NewT)
 				setRand(params.Parameters, n.G)
 				n.Params = params.Parameters
 				n.endKD = make(chan *edkg.LocalPartySaveData, 8)
 				n.Party = edrs.NewLocalParty(params, edkg.NewLocalPartySaveData(cfg.NewN), n.out, n.endKD)
 			} else {
-				params := tss.NewReSharingParameters(tss.S256(), oldCtx, newCtx, pid, len(oldPIDs), cfg.T, cfg.NewN, cfg.NewT)
+				params := tss.NewReSharingParameters(cfg.ecCurve(), oldCtx, newCtx, pid, len(oldPIDs), cfg.T, cfg.NewN, cfg.NewT)
 				setRand(params.Parameters, n.G)
 				n.Params = params.Parameters
 				n.endKE = make(chan *eckg.LocalPartySaveData, 8)
